@@ -130,22 +130,34 @@ func joinNote(a, b string) string {
 // static superset of event names of the scenario; fire(name) performs the event if it is currently enabled and reports
 // whether it was. Calls the event itself makes are neither logged nor choice points.
 func (w *World) AttachInterleave(run *explore.Run, names []string, fire func(name, before string) bool) {
+	w.AttachInterleaveOpt(run, names, fire, false)
+}
+
+// AttachInterleaveOpt: with afterToo the events may also happen right AFTER any call returned ("after <call>"), which
+// differs from "before the next call" exactly when the code reads in-memory state (the cluster cache) in between.
+func (w *World) AttachInterleaveOpt(run *explore.Run, names []string, fire func(name, before string) bool, afterToo bool) {
 	if len(names) == 0 {
 		return
 	}
 	in := false
-	w.Client.Sched = func(label string) {
-		if in {
-			return
+	point := func(prefix string) func(label string) {
+		return func(label string) {
+			if in {
+				return
+			}
+			k := run.ChooseKeyed("env@"+prefix+label, len(names)+1)
+			if k == 0 {
+				return
+			}
+			in = true
+			defer func() { in = false }()
+			w.Client.Quiet++
+			fire(names[k-1], prefix+label)
+			w.Client.Quiet--
 		}
-		k := run.ChooseKeyed("env@"+label, len(names)+1)
-		if k == 0 {
-			return
-		}
-		in = true
-		defer func() { in = false }()
-		w.Client.Quiet++
-		fire(names[k-1], label)
-		w.Client.Quiet--
+	}
+	w.Client.Sched = point("")
+	if afterToo {
+		w.Client.SchedAfter = point("after ")
 	}
 }
